@@ -29,3 +29,8 @@ server.close(error_code=0x100, reason_phrase="bye" * 100)
 more = server.datagrams_to_send(now=t)
 sent += sum(len(d) for d, _ in more)
 print("after close(): datagrams", [len(d) for d, _ in more], "total sent", sent, "> 3 * received =", 3 * recv, "->", sent > 3 * recv, "validated", path.is_validated, "ledger sent", path.bytes_sent)
+import sys
+if sent > 3 * recv:
+    print("FAIL: the closing packets exceed three times the bytes received from an unvalidated address")
+    sys.exit(1)
+print("PASS")
